@@ -36,9 +36,37 @@ func sealed(typ byte, data []byte, o gmref.SealOpt) func(q *gmref.Peer) error {
 	return func(q *gmref.Peer) error { return q.WriteRaw(typ, q.Seal(typ, data, o)) }
 }
 
-func isTLS(suite uint16) bool { return suite == gmref.SuiteAESCBC || suite == gmref.SuiteAESGCM }
+// Pseudo-suite codes (private to this harness) select TLS_RSA_WITH_AES_128_CBC_SHA at TLS 1.0 / 1.1;
+// the real AES suite codes mean TLS 1.2.
+const (
+	aesCBCTLS10 = 0xf02f
+	aesCBCTLS11 = 0xf12f
+)
+
+func isTLS(suite uint16) bool {
+	return suite == gmref.SuiteAESCBC || suite == gmref.SuiteAESGCM || suite == aesCBCTLS10 || suite == aesCBCTLS11
+}
 func isCBCSuite(suite uint16) bool {
-	return suite == gmref.SuiteCBC || suite == gmref.SuiteAESCBC
+	return suite == gmref.SuiteCBC || suite == gmref.SuiteAESCBC || suite == aesCBCTLS10 || suite == aesCBCTLS11
+}
+
+// wireSuite and wireVersion translate a (pseudo-)suite into what goes on the wire.
+func wireSuite(suite uint16) uint16 {
+	if suite == aesCBCTLS10 || suite == aesCBCTLS11 {
+		return gmref.SuiteAESCBC
+	}
+	return suite
+}
+func wireVersion(suite uint16) uint16 {
+	switch {
+	case suite == aesCBCTLS10:
+		return 0x0301
+	case suite == aesCBCTLS11:
+		return 0x0302
+	case isTLS(suite):
+		return 0x0303
+	}
+	return 0x0101
 }
 
 // refIdentity is what the reference peer holds as the server of the given suite's profile.
@@ -56,19 +84,20 @@ func refIdentity(suite uint16, libIsClient bool) gmref.Identity {
 func refSetup(suite uint16) func(q *gmref.Peer) {
 	return func(q *gmref.Peer) {
 		if isTLS(suite) {
-			q.UseTLS()
+			q.UseTLSVersion(wireVersion(suite))
 		}
-		q.Suites = []uint16{suite}
+		q.Suites = []uint16{wireSuite(suite)}
 	}
 }
 
 func libConfig(suite uint16, libIsClient bool) *gmtls.Config {
 	p := tlsk.Get()
 	if isTLS(suite) {
+		v := wireVersion(suite)
 		if libIsClient {
-			return &gmtls.Config{RootCAs: p.StdRootsG, ServerName: tlsk.ServerName, Time: tlsk.FixedTime, Rand: wire.NewRand(51), CipherSuites: []uint16{suite}, MinVersion: 0x0303, MaxVersion: 0x0303}
+			return &gmtls.Config{RootCAs: p.StdRootsG, ServerName: tlsk.ServerName, Time: tlsk.FixedTime, Rand: wire.NewRand(51), CipherSuites: []uint16{wireSuite(suite)}, MinVersion: v, MaxVersion: v}
 		}
-		return &gmtls.Config{Certificates: []gmtls.Certificate{p.RSA}, Time: tlsk.FixedTime, Rand: wire.NewRand(52), CipherSuites: []uint16{suite}, MinVersion: 0x0303, MaxVersion: 0x0303}
+		return &gmtls.Config{Certificates: []gmtls.Certificate{p.RSA}, Time: tlsk.FixedTime, Rand: wire.NewRand(52), CipherSuites: []uint16{wireSuite(suite)}, MinVersion: v, MaxVersion: v}
 	}
 	if libIsClient {
 		return &gmtls.Config{GMSupport: &gmtls.GMSupport{}, RootCAs: p.Roots, ServerName: tlsk.ServerName, Time: tlsk.FixedTime, Rand: wire.NewRand(51), CipherSuites: []uint16{suite}}
@@ -171,7 +200,7 @@ func craftedCatalogue(suite uint16, thorough bool) []crafted {
 	both("unprotected application-data record after the keys were activated", false, nil, func(q *gmref.Peer) error { return q.WriteRaw(gmref.RecApp, msg) })
 	for _, v := range []uint16{0x0100, 0x0102, 0x0301, 0x0303, 0x0101} {
 		v := v
-		if own := map[bool]uint16{true: 0x0303, false: 0x0101}[isTLS(suite)]; v == own {
+		if v == wireVersion(suite) {
 			continue // the connection's own version: not a change
 		}
 		add(crafted{name: fmt.Sprintf("sender protects and labels the record with version %04x", v), either: true, cbc: true, gcm: true, payload: msg, emit: func(q *gmref.Peer) error {
@@ -478,7 +507,7 @@ func refReceiveUnit(suite uint16, libIsClient bool, thorough bool) harness.Unit 
 
 func refUnits(tier string) []harness.Unit {
 	var u []harness.Unit
-	for _, s := range []uint16{gmref.SuiteCBC, gmref.SuiteGCM, gmref.SuiteAESCBC, gmref.SuiteAESGCM} {
+	for _, s := range []uint16{gmref.SuiteCBC, gmref.SuiteGCM, gmref.SuiteAESCBC, gmref.SuiteAESGCM, aesCBCTLS10, aesCBCTLS11} {
 		for _, lc := range []bool{true, false} {
 			parts := 1
 			if isCBCSuite(s) {
